@@ -33,6 +33,7 @@ class VerifTypedError(exceptions.JsonRpcError):
 
 
 # how the method raises its protocol error: through the base class, or through a typed class whose instance overrides code / message
+CUR = __import__('threading').local()
 PERR_CLASSES = [exceptions.JsonRpcError, exceptions.ServerError, VerifTypedError]
 
 
@@ -153,7 +154,6 @@ def a_out(ret):
 def build(cfg, ev):
     is_async = cfg['kind'] in ('async', 'asyncseq')      # asyncseq: AsyncDispatcher(concurrent_batch=False)
     coro = cfg['flavour'] in ('coro', 'wrapcoro')
-    perr = cfg['perr']
     exc_t = EXC[cfg['exc']]
 
     started = [0]
@@ -176,6 +176,7 @@ def build(cfg, ev):
             if coro:
                 return None
         if name == 'm_perr':
+            perr = getattr(CUR, 'perr', None) or cfg['perr']    # request histories change it between requests (per thread)
             data = UNSET if perr['data'] == ABSENT else conc(perr['data'])
             raise PERR_CLASSES[cfg.get('_perrcls', 0)](code=conc(perr['code']), message=conc(perr['message']), data=data)
         if name == 'm_exc':
